@@ -172,6 +172,10 @@ func (c *updater) setAuthExternal(config ConfigValueGetter, auth *hatypes.AuthEx
 		if len(ssvc) == 2 {
 			namespace = ssvc[0]
 			name = ssvc[1]
+			if url.Source != nil && namespace != url.Source.Namespace && !c.options.DynamicConfig.CrossNamespaceServices {
+				c.logger.Warn("skipping auth-url on %s: trying to use service '%s' cross namespaces, but cross-namespace reading is disabled", url.Source.String(), urlHost)
+				return
+			}
 		} else if url.Source != nil {
 			namespace = url.Source.Namespace
 		}
